@@ -71,10 +71,11 @@ CLAIMED["C19"] = (T_WP + " (lemma level) plus wrapper contracts over abstract fu
   "UnionPaths64(s,f) == BooleanOpPaths64(Union,s,nil,f) and the four WithClip wrappers pass Union/Intersection/Difference/Xor respectively. The area inequalities are not decided.",
   "BooleanOpPaths64 is an abstract function symbol (determinism by the frame obligations of C17/C18). Area discrepancy bounds undecided.",
   "DESIGN.md section 4, C19")
-CLAIMED["C09"] = (T_WP + " (lemma level)",
+CLAIMED["C09"] = (T_WP + " (lemma level); sampled bounded stand-in for the coverage clause",
   "Proved for all inputs: isContributingOpen is exactly the property's sentence (Intersection: inside clip; Union: outside both; Difference/Xor: outside clip, fill rule applied to the winding numbers); "
   "setWindCountForOpenPathEdge counts, edge by edge, exactly the closed subject edges into the subject winding and the clip edges into the clip winding (open subject edges contribute nothing). "
-  "Coverage of the subject lines, cutting at intersections and emission are not decided.",
+  "An open edge that leaves the clip region is detached from its output path on both sides (intersectEdges, open branch); startOpenPath's new ring. "
+  "Coverage of the subject lines is not decided by proof: a sampled stand-in (labelled bounded) checks it on 36 000 (quick) / 1.2 million (thorough) small random operations: no failure except known finding F37 (an open path turning back along a horizontal line is not cut on the overlapping stretch), reported under its own sub-check.",
   "Lemma level only; the open/closed intersection branch and emission are listed as not under contract.",
   "DESIGN.md section 4, C09")
 CLAIMED["C07"] = (T_WP + " with wrapper contracts over abstract function symbols (EUF + arrays)",
